@@ -376,14 +376,15 @@ def main(chk, replay=None):
     if replay:
         print(json.dumps(replay, indent=1, default=core.jdefault)[:3000])
         return
-    cfg = ('SPECIFICATION Spec\nCONSTANTS K = 4\nNCh = 2\nINVARIANT OwnValue\nINVARIANT EqualLengths\nINVARIANT ExcludedStayOut\n'
+    KK = 4 if chk.quick else 5
+    cfg = ('SPECIFICATION Spec\nCONSTANTS K = %d\nNCh = 2\n' % KK + 'INVARIANT OwnValue\nINVARIANT EqualLengths\nINVARIANT ExcludedStayOut\n'
            'INVARIANT CurvePerChannel\nINVARIANT RefusedOnlyWhenTooFew\n')
     res = tlc.run_tlc('Calibration', cfg)
     if not res.ok:
         raise tlc.MachineryError('Calibration: %s\n%s' % (res.violated, res.stdout[-1500:]))
-    chk.add_tlc(res, 'Calibration[K=4,NCh=2]')
+    chk.add_tlc(res, 'Calibration[K=%d,NCh=2]' % KK)
     gen_part(chk)
-    n = 32 if chk.quick else 800
+    n = 256 if chk.quick else 4000
     d = tlc.scratch('c02_')
     os.environ['C02_DIR'] = d
     scs = [scenario(chk.seed * 100000 + i) for i in range(n)]
